@@ -45,6 +45,7 @@ type Engine struct {
 	protoContract    map[*ssa.Function]*Contract
 	engineObls       []*Obligation
 	driverRuns       []DriverRun
+	reassignCache    map[string]bool
 	trustedUsed      map[string]bool
 	slessUsed        bool
 	allFuncs         map[*ssa.Function]bool
@@ -80,8 +81,8 @@ func NewEngine(repo string, patterns []string) (*Engine, error) {
 		typeCache: map[string]types.Type{}, pkgFilePos: map[string][]token.Pos{}, extraPkgs: map[string]*types.Package{},
 		loopCache: map[*ssa.Function]map[*ssa.BasicBlock]*loopInfo{}, trivial: map[string]int{},
 		extraAssumptions: map[string][]string{}, extraCoverage: map[string]map[string]interface{}{},
-		protoContract: map[*ssa.Function]*Contract{},
-		trustedUsed:   map[string]bool{}, globalInit: map[string]globalInitInfo{},
+		protoContract: map[*ssa.Function]*Contract{}, reassignCache: map[string]bool{},
+		trustedUsed: map[string]bool{}, globalInit: map[string]globalInitInfo{},
 	}
 	for _, p := range pkgs {
 		if p.Module != nil && e.modPath == "" {
